@@ -24,7 +24,7 @@ from typing import Any, Callable, Optional
 import z3
 
 from . import tys as T
-from .tys import Prelude, Ty, SeqTy, MapTy, SetTy, OptTy, RecTy, TupleTy, INT, BOOL, FLOAT, STR, NONE, ANY
+from .tys import Prelude, Ty, SeqTy, MapTy, SetTy, OptTy, RecTy, TupleTy, StructTy, INT, BOOL, FLOAT, STR, NONE, ANY
 
 
 class Unsupported(Exception):
@@ -103,6 +103,12 @@ class TypeEnv:
         self._pending = getattr(self, "_pending", [])
         self._pending.append((rec, fields))
         return rec
+
+    def add_struct(self, name: str, fields: dict[str, str]) -> None:
+        st = StructTy(name, {})
+        self.aliases[name] = st
+        self._pending = getattr(self, "_pending", [])
+        self._pending.append((st, fields))
 
     def finish(self) -> None:
         for rec, fields in getattr(self, "_pending", []):
@@ -641,6 +647,8 @@ class Engine:
     def e_Name(self, n: ast.Name, st: State) -> V:
         if n.id in st.env:
             return st.env[n.id]
+        if n.id == "yielded" and "$yielded" in st.env and self.mode_spec:
+            return st.env["$yielded"]  # ghost: the values a generator function has yielded so far
         if n.id in self.consts:
             return self.consts[n.id]
         if n.id in ("True", "False"):
@@ -662,6 +670,8 @@ class Engine:
             obj = V(self.pre.opt_val(obj.ty, obj.t), obj.ty.inner)
         if isinstance(obj.ty, RecTy):
             return self.read_field(st, obj, n.attr)
+        if isinstance(obj.ty, StructTy) and n.attr in obj.ty.fields:
+            return V(self.pre.struct_get(obj.ty, obj.t, n.attr), obj.ty.fields[n.attr])
         raise Unsupported(f"attribute .{n.attr} on {obj.ty}", n)
 
     def e_BoolOp(self, n: ast.BoolOp, st: State) -> V:
@@ -887,6 +897,10 @@ class Engine:
                 raise Unsupported("symbolic tuple index", n)
             i = kk.as_long()
             return V(self.pre.tup_get(obj.ty, obj.t, i), obj.ty.elems[i])
+        if isinstance(obj.ty, StructTy) and isinstance(n.slice, ast.Constant) and isinstance(n.slice.value, str):
+            if n.slice.value not in obj.ty.fields:
+                raise Unsupported(f"{obj.ty.name}[{n.slice.value!r}]", n)
+            return V(self.pre.struct_get(obj.ty, obj.t, n.slice.value), obj.ty.fields[n.slice.value])
         if isinstance(obj.ty, RecTy) and isinstance(n.slice, ast.Constant) and isinstance(n.slice.value, str):
             # TypedDict-style record access  p["eventId"]
             return self.read_field(st, obj, n.slice.value)
@@ -1372,6 +1386,12 @@ class Engine:
                 return self.builtins[name](self, n, st)
             if name in self.tenv.records and name in self.ctor_handlers:
                 return self.ctor_handlers[name](self, n, st)
+            if isinstance(self.tenv.aliases.get(name), StructTy):
+                sty = self.tenv.aliases[name]
+                if n.args or {kw.arg for kw in n.keywords} != set(sty.fields):
+                    raise Unsupported(f"{name}(...) must give exactly the fields {list(sty.fields)} by keyword", n)
+                kws = {kw.arg: self.coerce(self.expr(kw.value, st), sty.fields[kw.arg]) for kw in n.keywords}  # evaluation order = source order
+                return V(self.pre.struct_mk(sty, [kws[f].t for f in sty.fields]), sty)
             if name in self.contracts:
                 return self.call_contract(self.contracts[name], n, st, None)
             raise Unsupported(f"call of {name} (no contract)", n)
